@@ -13,9 +13,12 @@ and duplicates) × all interleavings of the two threads × all sibling orders (`
 implementation's hash maps may pick when orphans are released.
 
 What is NOT in these theorems: real thread schedules of the Rust code (the model's atomic-step
-granularity is argued in Model/Chain.lean, and sampled by the harness' burst mode); the preload
-thread's two `expect`s (suspected finding F7: the merged queue has no panic state); the sync layer's
-`HeaderMap`; `truncate`.
+granularity is argued in Model/Chain.lean, and sampled by the harness' burst mode); panics of the
+pipeline threads: the model has no panic state, and finding F7 (confirmed on the real code by the
+harness, see known_findings.txt: a second queued copy of a block whose first copy failed
+verification and was deleted makes `get_block(..).expect(..)` panic in the verify or the preload
+thread, after which nothing is verified any more) is exactly a behaviour the model does not have —
+in the model the second copy simply fails again; the sync layer's `HeaderMap`; `truncate`.
 -/
 namespace CkbVerif.C01
 open CkbVerif.Chain CkbVerif.Gen.Chain
